@@ -49,7 +49,7 @@ class Q:
     def __init__(self, name, harness, srcs=(), env=None, defs=None, unwind=8, unwindset=(),
                  instr=(), cbmc=(), tier="quick", required=True, timeout=None, entry="harness",
                  scaled=(), expect_fail=None, solver=None, native=False, note="",
-                 repo_defs=None, leak=False, nowitness=False):
+                 repo_defs=None, leak=False, nowitness=False, pre=None):
         self.name = name
         self.harness = harness
         self.srcs = list(srcs)
@@ -71,6 +71,7 @@ class Q:
         self.repo_defs = dict(repo_defs or {})
         self.leak = leak
         self.nowitness = nowitness
+        self.pre = pre                  # callable(wd, repo): generate headers into wd before compiling
 
 
 def run(cmd, timeout=None, cwd=None, mem_gb=None):
@@ -117,8 +118,10 @@ def build(q, wd, witness):
     """goto-cc compile + link + goto-instrument. Returns (path, error)"""
     repo = scaled_copy(q, wd) if q.scaled else REPO
     tag = "w" if witness else "m"
+    if q.pre:
+        q.pre(wd, repo)
     inc = ["-I" + os.path.join(VERIF, "env"), "-I" + os.path.join(VERIF, "harness"),
-           "-I" + repo] + GLIB_CFLAGS
+           "-I" + repo, "-I" + wd] + GLIB_CFLAGS
     defs = dflags(q.defs) + (["-DWITNESS"] if witness else [])
     objs = []
     jobs = [(os.path.join(VERIF, "harness", q.harness), "h", defs)]
